@@ -1560,7 +1560,7 @@ Proof.
     destruct (zremove op (b_out s)); [destruct a; [|destruct (b_notifs s)]|];
       (apply (APP _ (LDone op)); auto; discriminate).
   - destruct (b_wake s); [exact L|]. apply (LInv_log_same s); auto. exists []. unfold b_sub. cbn. rewrite app_nil_r.
-    split; auto. intros ? [].
+    split; auto; try (intros ? []).
   - (* the barrier block runs: the facts of barrier_between hold in this very state *)
     destruct (zmem id (b_fired s)) eqn:M; [|exact L].
     apply zmem_In in M. intros l1 l2 id' Hl. cbn in Hl.
